@@ -286,6 +286,7 @@ class ManifestContext:
             text_adps = self.calculate_text_adaptation_sets(
                 stream, video.lang)
         assert video is not None
+        requested_depth = opts.timeShiftBufferDepth
         if timing:
             opts.availabilityStartTime = timing.availabilityStartTime
             opts.timeShiftBufferDepth = timing.timeShiftBufferDepth
@@ -293,6 +294,13 @@ class ManifestContext:
 
         self.cgi_params = self.calculate_cgi_parameters(
             audio=audio_adps, video=video)
+        if requested_depth and requested_depth != opts.timeShiftBufferDepth:
+            # the stream is younger than the requested timeShiftBufferDepth.
+            # A reload of this manifest, or its patch, has to keep asking
+            # for the requested depth, otherwise the window would stop
+            # growing
+            self.cgi_params.manifest['depth'] = str(requested_depth)
+            self.cgi_params.patch['depth'] = str(requested_depth)
         video.append_cgi_params(self.cgi_params.video)
         for audio in audio_adps:
             audio.append_cgi_params(self.cgi_params.audio)
